@@ -25,6 +25,21 @@ Law(r) == LET n == Len(r.w) IN
     /\ \A i \in DOMAIN r.out : r.out[i].k = Key(r.kind, r.w, ToSet(r.out[i].c))   \* key alongside
     /\ \A i, j \in DOMAIN r.out : i < j => r.out[i].k <= r.out[j].k               \* non-decreasing key order
 
+\* the same law when the ELEMENTS themselves repeat (the weights are the elements): combinations are combinations of
+\* positions, so equal value tuples must occur as often as there are position sets producing them
+\* r = [e = element values, kind, out = sequence of [c = tuple of values, k = key]]
+ValuesOf(e, S) == LET t == AsTuple(S) IN [i \in DOMAIN t |-> e[t[i] + 1]]
+SumSeq(t) == FoldSet(LAMBDA i, acc : acc + t[i], 0, DOMAIN t)
+MaxSeq(t) == FoldSet(LAMBDA i, acc : IF t[i] > acc THEN t[i] ELSE acc, 0, DOMAIN t)
+LawValues(r) == LET n == Len(r.e)
+                    want == {ValuesOf(r.e, S) : S \in Combos(n)}
+                    have == {r.out[i].c : i \in DOMAIN r.out}
+                IN /\ Len(r.out) = Cardinality(Combos(n))
+                   /\ \A t \in want \cup have : Cardinality({i \in DOMAIN r.out : r.out[i].c = t})
+                                                  = Cardinality({S \in Combos(n) : ValuesOf(r.e, S) = t})
+                   /\ \A i \in DOMAIN r.out : r.out[i].k = (IF r.kind = "sum" THEN SumSeq(r.out[i].c) ELSE MaxSeq(r.out[i].c))
+                   /\ \A i, j \in DOMAIN r.out : i < j => r.out[i].k <= r.out[j].k
+
 \* min-combination search
 DomainMin == {[w |-> w, a |-> a, b |-> b] : w \in Vectors, a \in 0..MaxEnd, b \in 0..MaxEnd}
 DefMin(c) == LET n == Len(c.w)
